@@ -27,7 +27,7 @@ WORK = os.path.abspath(os.environ.get('VERIF_WORK_DIR') or os.path.join(VERIF, '
 EVID = os.path.abspath(os.environ.get('VERIF_EVIDENCE_DIR') or os.path.join(VERIF, 'evidence'))
 REPL = os.path.abspath(os.environ.get('VERIF_REPLAY_DIR') or os.path.join(VERIF, 'replays'))
 PY = '/venv/bin/python'
-NPROC = min(16, os.cpu_count() or 4)
+NPROC = max(1, min(int(os.environ.get("VERIF_NPROC", "16")), os.cpu_count() or 4))   # VERIF_NPROC: fewer coqc side by side (each shard can take ~1 GB)
 
 FORBIDDEN = re.compile(r'\b(Admitted|admit|Axiom|Axioms|Parameter|Parameters|Conjecture|Conjectures|'
                        r'Hypothesis|Hypotheses|Variable|Variables|Context)\b|Unset\s+Guard|bypass_check|'
@@ -343,6 +343,13 @@ class Ctx(object):
         cmd = ("cat %s | xargs -P %d -I{} sh -c 'ulimit -s unlimited 2>/dev/null; timeout %d coqc -q -Q %s V "
                "-w -notation-overridden {} > {}.out 2>&1; echo $? > {}.rc'" % (listing, NPROC, timeout, COQ))
         sh(cmd, timeout=timeout * (1 + len(paths) // NPROC) + 60)
+        # a shard that was killed from outside (rc 137: the machine ran out of memory while other work was going on)
+        # says nothing about the model: evaluate it once more, alone
+        for off, p in paths:
+            rc = open(p + '.rc').read().strip() if os.path.exists(p + '.rc') else '?'
+            if rc in ('137', '?'):
+                sh("sh -c 'ulimit -s unlimited 2>/dev/null; timeout %d coqc -q -Q %s V -w -notation-overridden %s > %s.out 2>&1; "
+                   "echo $? > %s.rc'" % (timeout, COQ, p, p, p), timeout=timeout + 60)
         bad = []
         for off, p in paths:
             rc = open(p + '.rc').read().strip() if os.path.exists(p + '.rc') else '?'
